@@ -21,7 +21,19 @@ use crate::{
     subject::{self, ReadRes, Req, Resp, SLOT_ERR, SLOT_IN, SLOT_OUT, SLOT_WAIT},
 };
 
-pub const WATCHDOG: Duration = Duration::from_millis(2000);
+/// bound on waiting for a completion the harness itself has enabled; it only ever elapses on a failure
+pub const WATCHDOG: Duration = Duration::from_millis(5000);
+static EXPIRIES: std::sync::atomic::AtomicU32 = std::sync::atomic::AtomicU32::new(0);
+
+/// after a few expiries in one run the remaining ones are cut short (a failing tree would otherwise
+/// spend the whole budget sleeping); a violation is re-validated with the full watchdog anyway
+fn watchdog() -> Duration {
+    if EXPIRIES.load(std::sync::atomic::Ordering::Relaxed) >= 4 { WATCHDOG / 5 } else { WATCHDOG }
+}
+
+pub fn reset_watchdog() {
+    EXPIRIES.store(0, std::sync::atomic::Ordering::Relaxed);
+}
 
 /// why an execution was cut short
 pub enum Abort {
@@ -98,8 +110,8 @@ impl Worker {
                     return Ok(s);
                 }
                 Err(e) if e.kind() == std::io::ErrorKind::WouldBlock => {
-                    if start.elapsed() > Duration::from_secs(10) {
-                        return Err("child did not connect to the control socket within 10 s".into());
+                    if start.elapsed() > Duration::from_secs(30) {
+                        return Err("child did not connect to the control socket within 30 s".into());
                     }
                     let mut p = libc::pollfd { fd: self.listener.as_raw_fd(), events: libc::POLLIN, revents: 0 };
                     unsafe { libc::poll(&mut p, 1, 100) };
@@ -112,10 +124,9 @@ impl Worker {
 
 impl Drop for Worker {
     fn drop(&mut self) {
+        // detach: a subject thread that is stuck inside compio must not take the controller with it
         let _ = self.req_tx.send(Req::Quit);
-        if let Some(h) = self.handle.take() {
-            let _ = h.join();
-        }
+        drop(self.handle.take());
         let _ = std::fs::remove_dir_all(&self.dir);
     }
 }
@@ -354,14 +365,27 @@ impl<'a> Run<'a> {
                     if rescued == 0 {
                         self.counters.push("runtime_thread_blocked_in_write");
                         let len = self.in_pending.unwrap_or(0);
-                        self.vio(
-                            "stdin-write-blocks-runtime-thread",
-                            format!(
-                                "during {what} the runtime thread went to sleep inside write(2) on the child's stdin (buffer of {len} bytes, pipe holds {} unread bytes): \
-                                 nothing else on this runtime (reading the child's stdout/stderr, wait) can make progress until the child consumes its stdin",
-                                (self.in_acked).saturating_sub(self.kid.in_total)
-                            ),
-                        );
+                        let child_blocked = self.kid.alive && (0..2).any(|s| self.kid.want[s] > self.kid.done[s] && !self.kid.closed[s]);
+                        let unread = self.in_acked.saturating_sub(self.kid.in_total);
+                        if child_blocked {
+                            self.vio(
+                                "stdin-write-blocks-runtime-thread:deadlock-with-child-blocked-on-output",
+                                format!(
+                                    "during {what} the runtime thread went to sleep inside write(2) on the child's stdin (buffer of {len} bytes, {unread} earlier bytes unread in the pipe) \
+                                     while the child itself is blocked writing its output (stdout {}/{} , stderr {}/{} bytes written) which only this runtime thread could read: \
+                                     with a sequential child (write output, then read input) this is a deadlock, nothing written to stdin ever reaches the child",
+                                    self.kid.done[0], self.kid.want[0], self.kid.done[1], self.kid.want[1]
+                                ),
+                            );
+                        } else {
+                            self.vio(
+                                "stdin-write-blocks-runtime-thread",
+                                format!(
+                                    "during {what} the runtime thread went to sleep inside write(2) on the child's stdin (buffer of {len} bytes, {unread} earlier bytes unread in the pipe): \
+                                     nothing else on this runtime (reading the child's stdout/stderr, wait, any other task) can make progress until the child consumes its stdin"
+                                ),
+                            );
+                        }
                     }
                     rescued += 1;
                     if self.kid.alive {
@@ -572,6 +596,67 @@ impl<'a> Run<'a> {
         }
     }
 
+    /// `wait_with_output()`: status and both complete outputs at once
+    fn do_output(&mut self) -> R<bool> {
+        if self.wait == WaitSt::Done {
+            self.note("OutputPoll -> n/a (already yielded)".into());
+            return Ok(true);
+        }
+        let r = self.call(Req::OutputPoll, "wait_with_output")?;
+        let Resp::Output { res } = r else { return Err(Abort::Mach("unexpected response to OutputPoll".into())) };
+        match res {
+            None => {
+                self.wait = WaitSt::Pending;
+                self.note("OutputPoll -> Pending".into());
+                self.sig.push("WO:P".into());
+                Ok(false)
+            }
+            Some(Err(e)) => {
+                self.wait = WaitSt::Done;
+                self.note(format!("OutputPoll -> Err({e})"));
+                self.sig.push("WO:E".into());
+                self.vio("output:error", format!("wait_with_output failed: {e}"));
+                self.st[0].eof = true;
+                self.st[1].eof = true;
+                Ok(true)
+            }
+            Some(Ok((status, out, err))) => {
+                self.wait = WaitSt::Done;
+                self.note(format!("OutputPoll -> Ready({status:?}, stdout {} bytes, stderr {} bytes)", out.len(), err.len()));
+                let got = match (status.code(), status.signal()) {
+                    (Some(c), _) => format!("exit{c}"),
+                    (None, Some(s)) => format!("sig{s}"),
+                    _ => format!("raw{:#x}", status.into_raw()),
+                };
+                self.sig.push(format!("WO:{got}"));
+                if !self.dead {
+                    self.vio("output:before-exit", format!("wait_with_output yielded {got} although the child had not been told to exit yet"));
+                } else if got != self.plan.mode.name() {
+                    self.vio(
+                        &format!("output:wrong-status:{}", self.plan.mode.name()),
+                        format!("child ended with {} but wait_with_output yielded {got}", self.plan.mode.name()),
+                    );
+                }
+                for (s, data) in [(0usize, &out), (1usize, &err)] {
+                    let nm = Self::stream_name(s);
+                    let id = if s == 0 { STDOUT } else { STDERR };
+                    if data.len() as u64 != self.kid.done[s] {
+                        self.vio(
+                            &format!("output:{nm}-length"),
+                            format!("collected std{nm} has {} bytes, the child wrote {}", data.len(), self.kid.done[s]),
+                        );
+                    }
+                    if let Some(k) = first_mismatch(id, 0, data) {
+                        self.vio(&format!("output:{nm}-content"), format!("byte {k} of the collected std{nm} is not what the child wrote there"));
+                    }
+                    self.st[s].read = data.len() as u64;
+                    self.st[s].eof = true;
+                }
+                Ok(true)
+            }
+        }
+    }
+
     fn do_harvest(&mut self) -> R<()> {
         let mut expect = [false; 4];
         for s in 0..2 {
@@ -580,7 +665,7 @@ impl<'a> Run<'a> {
         }
         expect[SLOT_IN] = self.in_pending.is_some() && (self.kid.in_total >= self.in_acked || self.dead);
         expect[SLOT_WAIT] = self.wait == WaitSt::Pending && self.dead;
-        let r = self.call(Req::Harvest { expect, watchdog: WATCHDOG }, "harvest")?;
+        let r = self.call(Req::Harvest { expect, watchdog: watchdog() }, "harvest")?;
         let Resp::Harvest { rounds, woken, timed_out, unsettled } = r else {
             return Err(Abort::Mach("unexpected response to Harvest".into()));
         };
@@ -594,6 +679,7 @@ impl<'a> Run<'a> {
             self.vio("harvest:unsettled", format!("the runtime did not become quiescent within {rounds} zero-timeout rounds"));
         }
         if timed_out {
+            EXPIRIES.fetch_add(1, std::sync::atomic::Ordering::Relaxed);
             for i in 0..4 {
                 if expect[i] && !woken[i] {
                     self.vio(
@@ -683,6 +769,9 @@ impl<'a> Run<'a> {
             Step::Wait => {
                 self.do_wait()?;
             }
+            Step::Output => {
+                self.do_output()?;
+            }
             Step::Harvest => self.do_harvest()?,
         }
         self.poke()
@@ -723,7 +812,8 @@ impl<'a> Run<'a> {
                 if self.kid.in_eof {
                     break;
                 }
-                if start.elapsed() > WATCHDOG {
+                if start.elapsed() > watchdog() {
+                    EXPIRIES.fetch_add(1, std::sync::atomic::Ordering::Relaxed);
                     self.vio("stdin:no-eof", format!("the parent closed stdin but the child does not see EOF (it has read {} bytes)", self.kid.in_total));
                     break;
                 }
@@ -736,6 +826,9 @@ impl<'a> Run<'a> {
                     format!("writes to stdin reported {} bytes in total but the child read {} before EOF", self.in_acked, self.kid.in_total),
                 );
             }
+        }
+        if self.plan.output {
+            return self.epilogue_output();
         }
         // 2. let the child finish what it was told to write (the parent must read for that)
         let mut guard = 0u64;
@@ -805,10 +898,48 @@ impl<'a> Run<'a> {
     }
 }
 
+impl<'a> Run<'a> {
+    fn epilogue_output(&mut self) -> R<()> {
+        // the future reads both streams itself; keep polling + harvesting until the child is done
+        let mut guard = 0u64;
+        while self.kid.alive && (0..2).any(|s| self.kid.want[s] > self.kid.done[s] && !self.kid.closed[s]) {
+            guard += 1;
+            if guard > 20_000 {
+                self.vio("liveness:child-write", "the child's pending write did not finish although wait_with_output kept being polled".into());
+                break;
+            }
+            self.steps += 2;
+            self.do_output()?;
+            self.do_harvest()?;
+            self.poke()?;
+        }
+        if self.kid.alive {
+            self.do_step(Step::ChildExit(self.plan.mode))?;
+        }
+        let start = Instant::now();
+        let mut guard = 0u64;
+        while self.wait != WaitSt::Done {
+            guard += 1;
+            if guard > 20_000 || start.elapsed() > 4 * WATCHDOG {
+                self.vio("liveness:output", "wait_with_output did not yield although the child is dead and the runtime was harvested".into());
+                break;
+            }
+            self.steps += 1;
+            if !self.do_output()? {
+                self.steps += 1;
+                self.do_harvest()?;
+            }
+        }
+        Ok(())
+    }
+}
+
 /// Execute one plan from a fresh runtime and a fresh child.
 pub fn execute(w: &mut Worker, plan: &Plan) -> ExecResult {
     let mut res = ExecResult { sig: String::new(), vios: vec![], steps: 0, hist: vec![], machinery: None, counters: vec![] };
-    if w.req_tx.send(Req::Begin { drv: plan.drv, exe: w.exe.clone(), sock: w.sock_path.clone() }).is_err() {
+    let t0 = Instant::now();
+    let timing = std::env::var_os("C20_TIMING_EXEC").is_some();
+    if w.req_tx.send(Req::Begin { drv: plan.drv, exe: w.exe.clone(), sock: w.sock_path.clone(), keep_out: plan.output }).is_err() {
         res.machinery = Some("subject thread is gone".into());
         return res;
     }
@@ -823,16 +954,22 @@ pub fn execute(w: &mut Worker, plan: &Plan) -> ExecResult {
             return res;
         }
     };
+    if timing { eprintln!("t begin {:?}", t0.elapsed()); }
     let pidfd = unsafe { libc::syscall(libc::SYS_pidfd_open, pid as libc::pid_t, 0u32) } as i32;
     if pidfd < 0 {
         res.machinery = Some(format!("pidfd_open: {}", std::io::Error::last_os_error()));
         return res;
     }
     let pidfd = unsafe { OwnedFd::from_raw_fd(pidfd) };
+    let kill_reap = |pidfd: &OwnedFd| unsafe {
+        libc::syscall(libc::SYS_pidfd_send_signal, pidfd.as_raw_fd(), libc::SIGKILL, 0usize, 0u32);
+        let mut info: libc::siginfo_t = std::mem::zeroed();
+        libc::waitid(libc::P_PIDFD, pidfd.as_raw_fd() as libc::id_t, &mut info, libc::WEXITED);
+    };
     let sock = match w.accept() {
         Ok(s) => s,
         Err(m) => {
-            unsafe { libc::syscall(libc::SYS_pidfd_send_signal, pidfd.as_raw_fd(), libc::SIGKILL, 0usize, 0u32) };
+            kill_reap(&pidfd);
             res.machinery = Some(m);
             return res;
         }
@@ -843,9 +980,10 @@ pub fn execute(w: &mut Worker, plan: &Plan) -> ExecResult {
     let _ = rx.read_line(&mut hello);
     if hello.trim() != format!("hello {pid}") {
         res.machinery = Some(format!("unexpected greeting {hello:?} (expected pid {pid})"));
-        unsafe { libc::syscall(libc::SYS_pidfd_send_signal, pidfd.as_raw_fd(), libc::SIGKILL, 0usize, 0u32) };
+        kill_reap(&pidfd);
         return res;
     }
+    if timing { eprintln!("t hello {:?}", t0.elapsed()); }
     let kid = Kid {
         tx,
         rx,
@@ -888,9 +1026,11 @@ pub fn execute(w: &mut Worker, plan: &Plan) -> ExecResult {
             break;
         }
     }
+    if timing { eprintln!("t steps {:?}", t0.elapsed()); }
     if r.is_ok() {
         r = run.epilogue();
     }
+    if timing { eprintln!("t epilogue {:?}", t0.elapsed()); }
     if r.is_ok() {
         // final accounting
         for s in 0..2 {
@@ -910,6 +1050,7 @@ pub fn execute(w: &mut Worker, plan: &Plan) -> ExecResult {
     let ended = run.w.req_tx.send(Req::End).is_ok()
         && matches!(run.w.resp_rx.recv_timeout(Duration::from_secs(20)), Ok(Resp::Ended));
     run.kid.reap();
+    if timing { eprintln!("t end {:?}", t0.elapsed()); }
     res.sig = run.sig.join(" ");
     res.vios = std::mem::take(&mut run.vios);
     res.steps = run.steps;
